@@ -26,6 +26,7 @@ POOL_THOROUGH = 1200
 SIMPLE_CFG_STEPS = [
     ("nseq", 1),
     ("extras", None),
+    ("mix", None),
     ("npics", 1),
     ("frag", 0),
     ("sy", 1),
@@ -38,6 +39,8 @@ SIMPLE_CFG_STEPS = [
 
 
 def cfg_class(cfg):
+    if isinstance(cfg, list):
+        return "tc:" + cfg[0]
     if cfg is None:
         return "raw"
     return "%s%s%s%s" % (
@@ -101,11 +104,22 @@ class ByteChanSpec(Spec):
             return {"raw": (head + bytes(rng.randrange(256) for _ in range(n))).hex()}
         if r < 0.08:
             return {"cfg": dict(W.minimal_config())}
+        if r < 0.26:
+            # a stream from the real decoder test-case generators
+            codec = rng.choice(W.TC_CODECS)
+            streams = W.testcase_streams(codec)
+            i = rng.randrange(len(streams))
+            return {"tc": [codec, i, streams[i][0]]}
         return {"cfg": dict(self.pool[rng.randrange(len(self.pool))])}
 
     def source_bytes(self, case):
         if "raw" in case:
             return bytes.fromhex(case["raw"])
+        if "tc" in case:
+            streams = W.testcase_streams(case["tc"][0])
+            if case["tc"][1] >= len(streams) or streams[case["tc"][1]][0] != case["tc"][2]:
+                raise W.WorkloadError("test case %r not produced by this tree" % (case["tc"],))
+            return streams[case["tc"][1]][1]
         return W.encode_stream(case["cfg"])
 
     def generate(self, rng, idx, tier):
@@ -126,7 +140,7 @@ class ByteChanSpec(Spec):
             nf = rng.randrange(3, 7)
         k = rng.randrange(2, 9)
         enabled = rng.sample(self.fault_kinds, min(k, len(self.fault_kinds)))
-        fmap = F.field_map(data) if "cfg" in case else None
+        fmap = F.field_map(data) if ("cfg" in case or "tc" in case) else None
         case["faults"] = F.gen_faults(rng, fmap, len(data), nf, enabled)
         return case
 
@@ -147,7 +161,7 @@ class ByteChanSpec(Spec):
 
     # ---- execution scaffolding
     def execute(self, case):
-        events = [("case", repr(sorted(case.get("cfg", {}).items())), case.get("raw"), repr(case["faults"]))]
+        events = [("case", repr(sorted(case.get("cfg", {}).items())), case.get("raw"), case.get("tc"), repr(case["faults"]))]
         stats = Counter()
         try:
             clean = self.source_bytes(case)
@@ -216,7 +230,7 @@ class C02(ByteChanSpec):
         vname = res.verdict if res.exc is None or res.verdict == "accept" else "%s:%s" % (res.verdict, type(res.exc).__name__)
         events.append(("validator", vname, res.reads, len(res.pics)))
         stats["verdict:" + vname] += 1
-        key = "%s|%s|%s" % (cfg_class(case.get("cfg")), self.kinds_of(case), vname)
+        key = "%s|%s|%s" % (cfg_class(case.get("cfg") or case.get("tc")), self.kinds_of(case), vname)
         if res.verdict == "oos":
             stats["discard:out-of-scope"] += 1
             return Outcome(DISCARD, events, stats=stats, key=None, ticks=res.reads)
@@ -291,7 +305,7 @@ class C06(ByteChanSpec):
     def judge(self, case, clean, data, changed, events, stats):
         d = R.run_deserialiser(data)
         events.append(("deser", d.verdict, type(d.exc).__name__ if d.exc else None, d.reads))
-        key = "%s|%s|%s" % (cfg_class(case.get("cfg")), self.kinds_of(case), d.verdict)
+        key = "%s|%s|%s" % (cfg_class(case.get("cfg") or case.get("tc")), self.kinds_of(case), d.verdict)
         if d.verdict == "oos":
             stats["discard:out-of-scope"] += 1
             return Outcome(DISCARD, events, stats=stats, ticks=d.reads)
@@ -501,7 +515,7 @@ class AcceptedSpec(ByteChanSpec):
             stats["accepted_after_fault"] += 1
             for f in case["faults"]:
                 stats["accepted_after:" + f.get("kind", f["k"])] += 1
-        key = "%s|%s|pics=%d" % (cfg_class(case.get("cfg")), self.kinds_of(case), len(v.pics))
+        key = "%s|%s|pics=%d" % (cfg_class(case.get("cfg") or case.get("tc")), self.kinds_of(case), len(v.pics))
         return self.judge_accepted(case, data, changed, v, events, stats, key)
 
     def extra_evidence(self, merged):
